@@ -12,7 +12,7 @@ from simverif.core import walletenv as W
 
 ID = 'C03'
 LEVEL = 'exploration'
-TIERS = {'quick': {'runs': 1500}, 'thorough': {'seconds': 600}}
+TIERS = {'quick': {'runs': 4000}, 'thorough': {'seconds': 600}}
 DET_PAIRS_PER_SLOT = 3
 RULE = ("one run = one seeded wallet history: 1..2 HD (or single-key) accounts, fee_per_byte in {0,1,10,50,100,1000}, "
         "fee_per_name_char in {0,1e3,2e5,1e6}, one of the 7 strategy names conf allows or None; 1..6 funding "
@@ -65,7 +65,7 @@ def _gen_fund(r, rate, regime, n_accounts, heavy):
         amount = base if equal else W.gen_amount(r, rate, regime)
         outs.append([1 if r.random() < 0.15 else 0, r.randrange(12), amount])
     return {'op': 'fund', 'acct': r.randrange(n_accounts), 'outs': outs,
-            'height': r.choice([1, 5, 40, 40, 0, -1])}
+            'height': r.choice([1, 5, 40, 40, 0, -1]), 'gap': r.random() < 0.7}
 
 
 def _deltas(r, rate):
@@ -80,7 +80,7 @@ def _gen_create(r, rate, n_accounts, heavy, kinds_w):
     op = {'op': 'create', 'funding': funding, 'change': r.choice(funding + funding + [r.randrange(n_accounts)]),
           'sign': r.random() < 0.85, 'api': r.random() < 0.25,
           'then': r.choices(['hold', 'release', 'broadcast'], [3, 3, 4])[0],
-          'bheight': r.choice([0, 0, -1, 50])}
+          'bheight': r.choice([0, 0, -1, 50]), 'gap': r.random() < 0.6}
     shape = r.choices(['outputs', 'input_only', 'pre_and_outputs'], [8, 2, 2])[0]
     if shape == 'input_only':
         op['outputs'] = []
@@ -91,7 +91,7 @@ def _gen_create(r, rate, n_accounts, heavy, kinds_w):
     steer = r.random() < 0.65
     for o in outs:
         o['amount'] = r.choice([['abs', r.choice([1, DUST, DUST + 1, 10 ** 5, 10 ** 6, 10 ** 8])],
-                                ['frac', round(r.choice([0.01, 0.1, 0.3, 0.5, 0.9, 1.2]) / n_out, 4)]])
+                                ['frac', round(r.choice([0.01, 0.05, 0.1, 0.3, 0.5, 0.9, 1.2]) / n_out, 4)]])
     if steer:
         o = outs[r.randrange(n_out)]
         how = r.choices(['total', 'subset', 'single'], [4, 3, 3])[0]
@@ -127,7 +127,7 @@ def gen(run_seed, tier):
         elif k == 'fund':
             ops.append(_gen_fund(r, rate, regime, n_accounts, False))
         else:
-            ops.append({'op': k, 'pick': round(r.random(), 3), 'bheight': r.choice([0, -1, 60])})
+            ops.append({'op': k, 'pick': round(r.random(), 3), 'bheight': r.choice([0, -1, 60]), 'gap': r.random() < 0.6})
     return {'family': 'seq', 'fee_per_byte': rate, 'fee_per_name_char': r.choice([0, 0, 1000, 200000, 10 ** 6]),
             'strategy': r.choice(W.STRATEGIES), 'n_accounts': n_accounts, 'regime': regime,
             'gaps': r.choice([[20, 6, 1], [20, 6, 1], [5, 2, 1], [3, 1, 1], [4, 2, 2]]),
@@ -267,6 +267,7 @@ def execute(scenario, keep_trace=False):
             run.probes['change_output_present'] += 1
             if not known_before:
                 run.probes['change_on_new_address'] += 1
+                run.faults['no_usable_change_address'] += 1
         else:
             run.probes['no_change_surplus' if excess > 0 else 'exact_no_change'] += 1
         if excess == coc + DUST:
@@ -284,6 +285,8 @@ def execute(scenario, keep_trace=False):
                 run.probes['input_only_no_output'] += 1
         if any(nf > o['size'] * rate for nf, o in zip(name_fees, outs)):
             run.probes['name_fee_dominates'] += 1
+        if b.change not in b.funding:
+            run.probes['change_account_not_funding'] += 1
         if len(b.funding) == 2 and len({sim.utxos[op].acct for op in in_ops}) == 2:
             run.probes['two_account_funding'] += 1
         if any(not sim.utxos[op].confirmed for op in added):
@@ -362,13 +365,13 @@ def execute(scenario, keep_trace=False):
         return None
 
     # ---- operations ----------------------------------------------------------------------------------
-    async def then_phase(b, how, bheight, tag):
+    async def then_phase(b, how, bheight, tag, gap=True):
         if how == 'release':
             await sim.release(b)
             run.probes['released'] += 1
             run.ev(tag, 'released', b.bid)
         elif how == 'broadcast':
-            made = await sim.broadcast(b, int(bheight))
+            made = await sim.broadcast(b, int(bheight), gap)
             run.probes['broadcast'] += 1
             n_req = len(b.requested)
             for u in made:
@@ -384,11 +387,25 @@ def execute(scenario, keep_trace=False):
         for spec in b.out_specs:
             if spec.get('k') in ('claim', 'support', 'purchase', 'script'):
                 run.probes['out_' + spec['k']] += 1
+        if any(u.held_by is not None and u.held_by != b.bid for u in sim.unspent()):
+            run.faults['build_while_outputs_held'] += 1
+        if any(not u.confirmed for u in avail_before.values()):
+            run.faults['unconfirmed_outputs_available'] += 1
+        if any(u.amount <= sf for u in avail_before.values()):
+            run.faults['dust_outputs_available'] += 1
         await sim.create(b)
+        if b.state == 'failed':
+            run.faults['build_failed_' + type(b.exc).__name__] += 1
         if op.get('api') and not b.pre and len(b.out_specs) == 1:
             run.probes['api_call'] += 1
         if not op.get('sign', True):
             run.probes['sign_false'] += 1
+        if b.state == 'held' and b.parsed is None:
+            e = b.parse_error
+            run.ev('create', n, 'unserialisable', type(e).__name__)
+            run.violation('C03.unserialisable_result', f'Transaction.create returned a transaction whose raw form '
+                          f'cannot be produced/parsed: {type(e).__name__}: {e}', exc=type(e).__name__)
+            return
         if b.state == 'held':
             p = b.parsed
             run.ev('create', n, 'ok', b.tx.id[:16], len(p['ins']), len(p['outs']), p['size'],
@@ -397,26 +414,41 @@ def execute(scenario, keep_trace=False):
             if check_success(b, avail_before):
                 return
             sim.settle_model_after_create(b)
-            await then_phase(b, op.get('then', 'hold'), op.get('bheight', 0), f'then#{n}')
+            await then_phase(b, op.get('then', 'hold'), op.get('bheight', 0), f'then#{n}', op.get('gap', True))
         else:
             run.ev('create', n, 'fail', type(b.exc).__name__, [c['amount'] for c in b.calls], len(b.touched))
             check_failure(b, avail_before)
             sim.settle_model_after_create(b)
 
     async def audit():
-        """The product's view must equal the reference model, otherwise the oracles' premises are wrong."""
+        """The wallet's own view (Account.get_utxos(), is_reserved column) must agree with the history: held
+        outputs are not offered, everything else unspent is.  The oracles above rest on exactly this."""
         got = await sim.product_utxos()
         for i in range(sim.n_accounts):
-            exp = {u.op for u in sim.unspent() if u.acct == i and u.held_by is None}
-            if got[i] != exp:
-                raise RuntimeError(f'harness model diverged from Account.get_utxos() of account {i}: '
-                                   f'only in product {sorted(got[i] - exp)[:4]}, only in model {sorted(exp - got[i])[:4]}')
+            mine = [u for u in sim.unspent() if u.acct == i]
+            offered_held = sorted(u.op for u in mine if u.held_by is not None and u.op in got[i])
+            if offered_held:
+                return run.violation('C03.utxo_view_mismatch', f'get_utxos() of account {i} offers {offered_held[:3]} '
+                                     f'which a built, unreleased transaction holds', what='held_offered')
+            missing = sorted(u.op for u in mine if u.held_by is None and u.op not in got[i])
+            if missing:
+                return run.violation('C03.utxo_view_mismatch', f'get_utxos() of account {i} lacks {missing[:3]}: unspent '
+                                     f'and held by no build in the reference model', what='available_missing')
+            known = {u.op for u in mine}
+            extra = sorted(op for op in got[i] if op not in known)
+            if extra:
+                return run.violation('C03.utxo_view_mismatch', f'get_utxos() of account {i} returns {extra[:3]} which the '
+                                     f'reference model has as spent or does not know', what='spent_or_unknown_offered')
         held = {u.op for u in sim.unspent() if u.held_by is not None}
         db_held = sim.db_reserved_unspent()
-        if held != db_held:
-            raise RuntimeError(f'harness model diverged from is_reserved: only in db {sorted(db_held - held)[:4]}, '
-                               f'only in model {sorted(held - db_held)[:4]}')
+        if db_held - held:
+            return run.violation('C03.utxo_view_mismatch', f'is_reserved=1 on {sorted(db_held - held)[:3]} which no '
+                                 f'build holds', what='reserved_without_holder')
+        if held - db_held:
+            return run.violation('C03.utxo_view_mismatch', f'is_reserved=0 on {sorted(held - db_held)[:3]} which a '
+                                 f'built, unreleased transaction holds', what='held_not_reserved')
         run.ev('audit', sorted((i, len(v)) for i, v in got.items()), len(held))
+        return None
 
     async def driver():
         await sim.open()
@@ -433,7 +465,7 @@ def execute(scenario, keep_trace=False):
                 held = sorted((b for b in sim.builds.values() if b.state == 'held'), key=lambda b: b.bid)
                 if held:
                     b = held[min(len(held) - 1, int(float(op.get('pick', 0)) * len(held)))]
-                    await then_phase(b, kind, op.get('bheight', 0), f'later#{n}')
+                    await then_phase(b, kind, op.get('bheight', 0), f'later#{n}', op.get('gap', True))
                     run.probes['later_release_or_broadcast'] += 1
             if run.violations:
                 return
